@@ -114,20 +114,33 @@ func (r *RibEntry) pruneIfEmpty() {
 	}
 }
 
+// updateNexthopsEnc recomputes the FIB entries of this RIB entry and of all
+// entries below it. Where the FIB supports it, the whole recomputation is one
+// atomic update, so lookups see either the old or the new nexthops.
 func (r *RibEntry) updateNexthopsEnc() {
+	if batch, ok := FibStrategyTable.(fibBatch); ok {
+		batch.batchUpdate(func(ops fibBatchOps) {
+			r.updateNexthops(ops)
+		})
+	} else {
+		r.updateNexthops(fibUnbatched{fib: FibStrategyTable})
+	}
+}
+
+func (r *RibEntry) updateNexthops(fib fibBatchOps) {
 	// An entry without routes of its own (e.g. a node that only exists on the
 	// path to a longer prefix) contributes nothing to the FIB
 	if len(r.routes) == 0 {
 		if r.Name != nil {
-			FibStrategyTable.ClearNextHopsEnc(r.Name)
+			fib.clearNextHops(r.Name)
 		}
 		for child := range r.children {
-			child.updateNexthopsEnc()
+			child.updateNexthops(fib)
 		}
 		return
 	}
 
-	FibStrategyTable.ClearNextHopsEnc(r.Name)
+	fib.clearNextHops(r.Name)
 
 	// All routes including parents if needed
 	routes := append([]*Route{}, r.routes...)
@@ -159,12 +172,12 @@ func (r *RibEntry) updateNexthopsEnc() {
 
 	// Add "flattened" set of nexthops
 	for nexthop, cost := range minCostRoutes {
-		FibStrategyTable.InsertNextHopEnc(r.Name, nexthop, cost)
+		fib.insertNextHop(r.Name, nexthop, cost)
 	}
 
 	// Trigger update for all children for inheritance
 	for child := range r.children {
-		child.updateNexthopsEnc()
+		child.updateNexthops(fib)
 	}
 }
 
